@@ -227,7 +227,12 @@ class H2Protocol:
                 await self.has_data.set()
                 await self.stream_buffers[event.stream_id].drain()
             elif isinstance(event, Trailers):
-                self.connection.send_headers(event.stream_id, event.headers)
+                # Trailers end the stream, so the body (if there was
+                # any) must be on the wire first
+                buffer = self.stream_buffers[event.stream_id]
+                if len(buffer.buffer) > 0:
+                    await buffer.drain()
+                self.connection.send_headers(event.stream_id, event.headers, end_stream=True)
                 await self._flush()
             elif isinstance(event, StreamClosed):
                 await self._close_stream(event.stream_id)
